@@ -8,6 +8,12 @@ C04, whose theorems hold for every capacity — breaks only C11's obligation.)
 -/
 namespace Obligations
 
+/-- the size cache doubles on growth with exactly one allocation, and `clear()` keeps the storage (the model's
+    `Cache.push` / `Cache.clear`) -/
+theorem alloc_cache_geometry :
+    0 < Extracted.cacheInlineCap ∧ Extracted.cacheGrowthFactor = 2 ∧ Extracted.cacheGrowAllocs = 1 ∧
+    Extracted.clearKeepsCapacity = true := by decide
+
 /-- `InlinedVector<uint32_t, 12>`: twelve lengths fit without a heap allocation -/
 theorem alloc_inline_capacity : Extracted.cacheInlineCap = 12 := by decide
 
